@@ -4,7 +4,7 @@ from __future__ import annotations
 
 from vfw.gen.corpus import rng
 
-VERSION = 2
+VERSION = 3
 
 SCHEMA = """
 CREATE TABLE t1 (a INTEGER, b TEXT, c REAL);
@@ -116,7 +116,8 @@ class _Q:
             a1, a2 = r.choice([("t1", "t2"), ("x", "y"), ("t1", "u")])
             as1 = "" if a1 == "t1" else r.choice([f" {a1}", f" AS {a1}"])
             as2 = "" if a2 == "t2" else r.choice([f" {a2}", f" as {a2}"])
-            on = r.choice([f"{a1}.a = {a2}.a", f"{a2}.a = {a1}.a", f"{a1}.a={a2}.a"])
+            on = r.choice([f"{a1}.a = {a2}.a", f"{a2}.a = {a1}.a", f"{a1}.a={a2}.a", f"{a2}.a = {a1}.a + 1", f"{a2}.a <= {a1}.a - 1", f"{a2}.a > {a1}.a * 2",
+                           f"{a2}.a = {a1}.a {self.kw('and')} {a2}.a < {a1}.a + 2", f"{a1}.a + 1 = {a2}.a", f"{a2}.a <> {a1}.a - 1"])
             frm = f"t1{as1}{self.ws()}{self.kw(jt)} t2{as2} {self.kw('on')} {on}"
             cols = [f"{a1}.a", f"{a1}.c", f"{a2}.a"]
             tcols = [f"{a1}.b", f"{a2}.d"]
